@@ -839,8 +839,41 @@ def fam_one(case):
     return A.done()
 
 
+# ===================================================================== repeated calls (added by the coordinator)
+FRESH_TEXTS = [('3 -2 17 5', None), ('3 -2 17 5', float), ('1.5, -0.25; 3.0, 10.125', None), ('1+2j 0.5j 3', None),
+               ('1+2i, -1.5-0.5i; 2i, 3', complex), ('1011', None), ('10 100 1000', int), ('0 1; 1 0', None)]
+
+
+def fam_fresh(case):
+    """('fresh', index): every call of a conversion/parsing function returns its OWN result: the caller may overwrite what
+    it got (in place) and the next call with the same arguments must still return the written values."""
+    from opticomlib import utils as U
+    A = Acc('fresh')
+    text, dt = FRESH_TEXTS[case[1]]
+    calls = [('str2array', lambda: U.str2array(text, dt) if dt is not None else U.str2array(text)),
+             ('dec2bin', lambda: U.dec2bin(37 + case[1], 9)),
+             ('idb', lambda: U.idb([0.0, 3.0, float(case[1])])),
+             ('db', lambda: U.db([1.0, 2.0, 10.0 + case[1]])),
+             ('Q', lambda: U.Q(np.array([0.0, 1.0, 2.5]))),
+             ('rcos', lambda: U.rcos(np.array([0.0, 0.4, 0.8]), 0.5, 1.0))]
+    for name, f in calls:
+        r1 = np.asarray(f())
+        want = r1.copy()
+        try:
+            if r1.flags.writeable and r1.size:
+                r1[...] = (r1 * 0 + 1).astype(r1.dtype) if r1.dtype != bool else ~r1
+        except Exception:
+            pass
+        r2 = np.asarray(f())
+        A.item((name, case[1]), arr_key(r2))
+        if r2.shape != want.shape or r2.dtype != want.dtype or not np.array_equal(r2, want):
+            A.v(f'{name}:repeated-call:stale-result', f'{name} (case {case[1]}: {text!r}, dtype={dt}) returned {want.tolist()!r}; after the caller overwrote that '
+                                                      f'array in place, the same call returns {r2.tolist()!r}')
+    return A.done()
+
+
 FAMILIES = {'db': fam_db, 'dbv': fam_dbv, 'q': fam_q, 'gaus': fam_gaus, 'rcos': fam_rcos, 'd2b': fam_d2b,
-            'si': fam_si, 's2a': fam_s2a, 'bits': fam_bits, 'bad': fam_bad, 'one': fam_one}
+            'si': fam_si, 's2a': fam_s2a, 'bits': fam_bits, 'bad': fam_bad, 'one': fam_one, 'fresh': fam_fresh}
 
 
 def case_fn(case):
@@ -961,6 +994,9 @@ def run(ctx):
     part('str2array.bit-patterns', bits)
     nb = len(BADCHARS)
     part('str2array.invalid-characters', [('bad', bi, lo, min(lo + 20, nb)) for bi in range(len(BAD_BASES)) for lo in range(0, nb, 20)])
+
+    # -- repeated calls return fresh results
+    part('repeated-calls', [('fresh', i) for i in range(len(FRESH_TEXTS))])
 
     # -- per-item distinct counts
     nt = np.unique(np.concatenate(nt_all)) if nt_all else np.array([], dtype=np.uint64)
